@@ -236,6 +236,21 @@ func checkC15(c *chk.Ctx) {
 			run(p, "extra_unrelated", set.Run(p, bx.Request("", nil), plug.RunOpts{}), gen)
 			run(p, "extra_unrelated", set.Run(p, bx.Request("", append([]string{"zzextra/unrelated.proto"}, gen...)), plug.RunOpts{}), gen)
 		}
+		// parameter spelling: spellings that mean the same (blanks around the key, the value, the separators; the
+		// alias yml; no parameter at all) give the same files. Runs are compared within a meaning (the label).
+		for label, spellings := range map[string][]string{
+			"openapiv3:json": {"format=json", " format=json", "format=json ", "format = json", "format=json, ", " format = json "},
+			"openapiv3:yaml": {"", "format=yaml", "format=yml", " format=yaml", "format=yaml ", "format = yml"},
+		} {
+			for _, sp := range spellings {
+				r := set.Run("openapiv3", b.Request(sp, nil), plug.RunOpts{})
+				ev := pipe.GenEvent(r, names, "param_spelling", e.Schema, gen)
+				ev["plugin"] = label
+				ev["param"] = sp
+				seg.Lines = append(seg.Lines, jsonLine(ev))
+				evals++
+			}
+		}
 		segs = append(segs, seg)
 		c.AddSample(map[string]any{"fv": e.Fv, "files": gen, "runs_per_plugin": reps + 6 + len(gen)})
 	}
